@@ -19,9 +19,10 @@ RULE = ("Generated scripted value sequences (families: monotone, oscillating, co
         "after the first admissible check, or never, with patience >= 1 (and periods different in part of the cases).")
 RULE_EXT = ('Extended as built: the recorded value the evaluator actually stored (torch.var_mean for variance) feeds the reference, two rounds with clear_history in between, evaluator given as metric or observable, default criterion, construction-time validation. Round 5: starting_epoch 1..4, evaluators that track other quantities besides the monitored one, variance_name passed to the deprecated class (documented as ignored), a second stopper (tolerance 0) on the same evaluator before or after the first.')
 RULE = RULE + " " + RULE_EXT
-ASSUMPTIONS = ["comparisons whose reference value (relative) or standard deviation (variance) is exactly 0, and comparisons within 1e-9 relative of the "
-               "tolerance, are undefined/borderline: the run is cut just before the first such check (counted, label 'truncated')",
-               "evaluator listed before the stopper (the documented ordering)"]
+ASSUMPTIONS = ["comparisons whose reference value (relative criterion) is exactly 0, and comparisons within 1e-9 relative of the "
+               "tolerance, are undefined/borderline: the run is cut just before the first such check (counted, label 'truncated'); a standard "
+               "deviation of exactly 0 (variance criterion) is a defined case: the standardised change is infinite or 0/0 and never below the tolerance",
+               "the stopper may be listed before or after its evaluator: listed before, it sees at epoch e the evaluations recorded up to the previous epoch"]
 
 
 @st.composite
@@ -61,6 +62,7 @@ def scripts(draw, tier):
         # tolerance placed a few 1e-8 (relative) above or below one of the deviations the run will actually see: the decision is still well
         # defined in double precision (the reference cuts runs only within 1e-9), but not for an implementation that loses digits
         c["tol_near"] = {"j": draw(st.integers(0, 11)), "sign": draw(st.sampled_from([-1, 1])), "delta": draw(st.sampled_from([3e-8, 1e-7, 1e-6]))}
+    c["stopper_first"] = draw(st.integers(0, 3)) == 0    # the stopper listed BEFORE its evaluator: at epoch e it sees the evaluations recorded up to the previous epoch
     c["se"] = draw(st.sampled_from([1, 1, 1, 2, 3, 4]))  # starting_epoch: epochs are numbered se..E, periods refer to the epoch NUMBER
     c["extra_names"] = draw(st.booleans())              # the evaluator tracks other quantities besides the monitored one
     c["variance_name"] = draw(st.sampled_from([None, "m", "a", "m_variance"]))    # deprecated class only: documented as ignored
@@ -73,7 +75,10 @@ def dev(c, a, b, var_a):
         return None if a == 0 else abs((a - b) / a)
     if c["criterion"] == "absolute":
         return abs(a - b)
-    return None if var_a == 0 else abs(a - b) / math.sqrt(var_a)
+    if var_a == 0:
+        # documented rule |M_{t-p} - M_t| / sigma_{t-p} < kappa with sigma = 0: the standardised change is infinite (or 0/0): never "< kappa"
+        return float("inf") if a != b else float("nan")
+    return abs(a - b) / math.sqrt(var_a)
 
 
 def recorded_value(c, i):
@@ -95,12 +100,16 @@ def reference(c, E, L=None, counter=None):
     counter = [len(L)] if counter is None else counter       # index into the script = evaluations made so far (survives clear_history)
     p, tol = c["patience"], c["tol"]
     for e in range(c.get("se", 1), E + 1):
-        if e % c["pe"] == 0:
+        def evaluate():
             i = counter[0]
             if i >= len(c["vals"]):
-                return None, e          # script exhausted: cut here
+                return False
             L.append(recorded_value(c, i))
             counter[0] += 1
+            return True
+        if not c.get("stopper_first") and e % c["pe"] == 0 and not evaluate():
+            return None, e              # script exhausted: cut here
+        stop_now = False
         if e % c["ps"] == 0 and len(L) >= p + 1:
             a, va = L[-1 - p]
             b, _ = L[-1]
@@ -108,8 +117,12 @@ def reference(c, E, L=None, counter=None):
             exact = (d == tol) and (c["criterion"] != "variance" or d == 0)   # same IEEE operations as the library: equality is well defined
             if d is None or (not exact and math.isfinite(d) and math.isfinite(tol) and abs(d - tol) <= 1e-9 * (abs(d) + abs(tol))):
                 return None, e          # undefined / borderline comparison: cut the run before this epoch
-            if d < tol:
-                return e, None
+            if d < tol:          # False for nan (0/0) and for inf
+                stop_now = True
+        if c.get("stopper_first") and e % c["pe"] == 0 and not evaluate():
+            return None, e              # (the evaluator listed after the stopper still records this epoch's value, stop or not)
+        if stop_now:
+            return e, None
     return None, None
 
 
@@ -202,11 +215,14 @@ def check(c):
         es = EarlyStopping(c["ps"], c["tol"], c["patience"], ev, "m", criterion=spell)
     ends = []
     rec = LambdaCallback(on_epoch_end=lambda s, e: ends.append(e))
-    cb_list = [ev, es, rec]
+    stoppers = [es]
     if c.get("second_stopper") and c.get("extra_names"):
         es2 = EarlyStopping(1, 0.0, 1 if c["patience"] > 1 else 2, ev, "a", criterion=c["criterion"])
-        cb_list = [ev, es2, es, rec] if c["second_stopper"] == "before" else [ev, es, es2, rec]
+        stoppers = [es2, es] if c["second_stopper"] == "before" else [es, es2]
         labels.append("second_stopper")
+    cb_list = (stoppers + [ev, rec]) if c.get("stopper_first") else ([ev] + stoppers + [rec])
+    if c.get("stopper_first"):
+        labels.append("stopper_listed_before_evaluator")
     nt_any = False
     for ri, (E, stop_e) in enumerate(plan):
         del ends[:]
